@@ -261,6 +261,18 @@ def gen_modgraph(rng, profile=None):
                     e["calls"] = rng.sample(pc, min(len(pc), rng.randint(1, 2)))
         mods.append(mod)
 
+    # submodules with USE statements of their own (the ancestor's names are host-associated)
+    submods = []
+    if pr["inner_uses"] and pr.get("submodules", True):
+        for i, parent in enumerate(list(mods)):
+            if rng.random() < 0.2 and not parent["name"] in KNOWN_EXTERNAL:
+                sname = "%s%s_sub%d" % (px, rng.choice(["a", "z"]), i)
+                vis = {n for cl in usemodel.CLASSES for n in tables[parent["name"]][cl]}
+                cands = [m["name"] for m in mods if m["name"] != parent["name"]]
+                suses = gen_uses(cands, vis, max_uses=2, min_uses=1) if cands else []
+                if suses:
+                    submods.append({"name": sname, "parent": parent["name"], "uses": suses, "tr": tr()})
+
     progs, extprocs = [], []
     if pr["progs"]:
         for k in range(rng.randint(1, 2 if not pr["extras"] else 3)):
@@ -337,7 +349,7 @@ def gen_modgraph(rng, profile=None):
         extras.append({"kind": "dupmod", "name": "%sdup_of_%s" % (px, victim["name"]), "modname": victim["name"], "tr": tr()})
 
     # distribute units over files
-    units = [("module", m["name"]) for m in mods] + [("program", p["name"]) for p in progs] + \
+    units = [("module", m["name"]) for m in mods] + [("submod", sm["name"]) for sm in submods] + [("program", p["name"]) for p in progs] + \
             [("extproc", x["name"]) for x in extprocs] + [("extra", e["name"]) for e in extras if e["kind"] != "dupmod"]
     nf = pr.get("n_files") or rng.randint(1 if len(units) < 2 else 2, min(6, len(units)))
     files = {}
@@ -353,7 +365,7 @@ def gen_modgraph(rng, profile=None):
         if e["kind"] == "dupmod":   # an equally named module always lives in a file of its own
             files["src/%s%s.f90" % (px, rng.choice(["a_dup", "zz_dup"]))] = [["extra", e["name"]]]
     world = {"mods": mods, "progs": progs, "extprocs": extprocs, "extras": extras, "files": files,
-             "prefix": px}
+             "prefix": px, "submods": submods}
     return world
 
 
@@ -586,6 +598,7 @@ def render_sources(world, rng):
     by.update({("program", p["name"]): p for p in world["progs"]})
     by.update({("extproc", x["name"]): x for x in world["extprocs"]})
     by.update({("extra", e["name"]): e for e in world.get("extras", [])})
+    by.update({("submod", e["name"]): e for e in world.get("submods", [])})
     out = {}
     for f, units in sorted(world["files"].items()):
         L = []
@@ -597,6 +610,9 @@ def render_sources(world, rng):
                 L += render_prog(obj, rng)
             elif kind == "extproc":
                 L += render_extproc(obj, rng)
+            elif kind == "submod":
+                L += ["submodule (%s) %s" % (obj["parent"], obj["name"]), "  !! %s" % obj["tr"]] + \
+                     ["  " + _use_line(rng, u) for u in obj["uses"]] + ["  implicit none", "end submodule %s" % obj["name"]]
             else:
                 L += render_extra(obj, rng)
             L.append("")
@@ -696,10 +712,18 @@ def normalize(world):
             if e.get("vtype") and e["vtype"] not in imp["types"]:
                 del e["vtype"]
     modnames = {m["name"] for m in world["mods"]}
+    sm2 = []
+    for sm in world.get("submods", []):
+        if sm["parent"] in modnames:
+            sm["uses"] = fix_uses(sm["uses"])
+            if sm["uses"]:
+                sm2.append(sm)
+    world["submods"] = sm2
     world["extras"] = [x for x in world.get("extras", []) if x["kind"] != "submodule" or x["parent"] in modnames]
     smods = {x["name"] for x in world["extras"] if x["kind"] == "submodule"}
     world["extras"] = [x for x in world["extras"] if not x.get("parent_sub") or x["parent_sub"] in smods]
-    present = {("module", m["name"]) for m in world["mods"]} | {("program", p["name"]) for p in world["progs"]} | \
+    present = {("module", m["name"]) for m in world["mods"]} | {("submod", x["name"]) for x in world.get("submods", [])} | \
+              {("program", p["name"]) for p in world["progs"]} | \
               {("extproc", x["name"]) for x in world["extprocs"]} | {("extra", e["name"]) for e in world.get("extras", [])}
     files = {}
     for f, units in world["files"].items():
@@ -716,7 +740,7 @@ def shrink_candidates(world):
 
     def cp():
         return copy.deepcopy(world)
-    for key in ("extprocs", "progs", "extras"):
+    for key in ("extprocs", "progs", "extras", "submods"):
         for i in range(len(world.get(key, []))):
             w = cp()
             del w[key][i]
